@@ -12,7 +12,7 @@ SPEC = {
     ],
     "jobs": [
         {"name": "asan", "harness": "c04_raw_roundtrip", "srcs": ["harness/c04_raw_roundtrip.c"], "flavour": "asan",
-         "cases": {"quick": 48000, "thorough": 3200000}, "budget": 20},
+         "cases": {"quick": 96000, "thorough": 3200000}, "budget": 20},
     ],
     "min_distinct": 400,
     "min_counters": {
